@@ -161,6 +161,18 @@ def limit_probes(rng):
             if n >= 3:
                 out.append((H.Cfg(max_line=ml, max_field=max(mf, 30)),
                             b"POST / HTTP/1.1\r\nHost: x\r\nTransfer-Encoding: chunked\r\n\r\n5;" + b"e" * (n - 2) + b"\r\nhello\r\n0\r\n\r\n", "chunkline", delta))
+            # chunk-size lines that are long without an extension: zero-padded digits, a last-chunk line of zeros,
+            # the size line of a later chunk, (lax) blanks around the digits
+            n = ml + delta
+            if n >= 3:
+                te = b"POST / HTTP/1.1\r\nHost: x\r\nTransfer-Encoding: chunked\r\n\r\n"
+                out.append((H.Cfg(max_line=ml, max_field=max(mf, 30)), te + b"0" * (n - 1) + b"5\r\nhello\r\n0\r\n\r\n", "chunkdigits", delta))
+                out.append((H.Cfg(max_line=ml, max_field=max(mf, 30)), te + b"5\r\nhello\r\n" + b"0" * n + b"\r\n\r\n", "lastchunk-zeros", delta))
+                out.append((H.Cfg(max_line=ml, max_field=max(mf, 30)), te + b"3\r\nabc\r\n" + b"0" * (n - 1) + b"5\r\nhello\r\n0\r\n\r\n", "chunkdigits-2nd", delta))
+                rte = b"HTTP/1.1 200 OK\r\nTransfer-Encoding: chunked\r\n\r\n"
+                laxc = dict(response=True, lax=True, read_until_eof=False)
+                out.append((H.Cfg(max_line=ml, max_field=max(mf, 30), **laxc), rte + b"5" + b" " * (n - 1) + b"\nhello\r\n0\r\n\r\n", "chunkblanks-lax", delta))
+                out.append((H.Cfg(max_line=ml, max_field=max(mf, 30), **laxc), rte + b" " * (n - 1) + b"5\nhello\r\n0\r\n\r\n", "chunkblanks-lead-lax", delta))
             # trailer
             n = mf + delta
             if n >= 4 and mf >= 30:
@@ -303,6 +315,44 @@ def _check(ctx):
         ctx.case(("srv", data), nontrivial=bool(out))
     if excs:
         ctx.violation("C05/loop-exception-handler-called", {"n": len(excs), "first": repr(excs[0])[:300]}, f"{len(excs)} exceptions reached the event loop")
+    # the malformed request arrives behind valid keep-alive requests: in the same read (their handlers have not run yet)
+    # or in a later read while a slow handler is still running — the 4xx must still be sent, after their responses
+    oks = [b"GET /ok HTTP/1.1\r\nHost: h\r\n\r\n", b"POST /ok HTTP/1.1\r\nHost: h\r\nContent-Length: 3\r\n\r\nabc",
+           b"GET /slow HTTP/1.1\r\nHost: h\r\nX-Slow: 1\r\n\r\n", b"PUT /ok HTTP/1.1\r\nHost: h\r\nTransfer-Encoding: chunked\r\n\r\n3\r\nabc\r\n0\r\n\r\n"]
+    behind = []
+    for _ in range(150 if ctx.quick else 3000):
+        pre = b"".join(rng.choice(oks) for _ in range(rng.choice([1, 1, 2, 3])))
+        bad, kind = H.mutate(rng, H.gen_request(rng))
+        data = pre + bad
+        cuts, gaps = ([len(data)], [0]) if rng.random() < 0.4 else ([len(pre), len(bad)], [rng.choice([0, 0.3, 0.3]), 0])
+        _, o = H.run_impl(H.Cfg(), [pre, bad] if len(cuts) == 2 else [data], False)
+        if o["err"] is None:
+            continue
+        # the rejected request was never parsed: its 4xx carries a body whatever its method says
+        o["methods"] = [m.split(b" ", 1)[0] for m in pre.split(b"\r\n") if b" HTTP/1." in m] + [b"?"]
+        behind.append((data, cuts, gaps, o))
+    res, excs = c01.server_seen([(d, c, g) for d, c, g, _ in behind])
+    for (data, cuts, gaps, o), (seen, out, closed, escaped) in zip(behind, res):
+        case = {"cfg": H.Cfg().spec(), "stream": hx(data), "cuts": cuts, "gaps": gaps, "behind": True}
+        ctx.case(("srv-behind", data, tuple(cuts), tuple(gaps)), nontrivial=bool(out))
+        judge_behind(ctx, case, o, out, closed, escaped)
+    if excs:
+        ctx.violation("C05/loop-exception-handler-called", {"n": len(excs), "first": repr(excs[0])[:300]}, f"{len(excs)} exceptions reached the event loop (errors behind handlers)")
+
+
+def judge_behind(ctx, case, o, out, closed, escaped):
+    from . import c01
+    if escaped:
+        ctx.violation(f"C05/exception-escaped-data_received/{escaped}", case, f"{escaped} left RequestHandler.data_received")
+        return
+    codes = c01.split_responses(out, o.get("methods") or [e[2][0] for e in o["events"] if e[0] == "M"])
+    if -1 in codes:
+        ctx.violation("C01/server/garbled-response-stream", case, f"response stream does not split into responses: {out[:80]!r}")
+    elif not codes or not (400 <= codes[-1] < 500):
+        ctx.violation("C10/server/malformed-behind-valid-requests-not-answered-4xx", case,
+                      f"the parser rejects the last request ({o['err']}) behind valid ones, but the responses are {codes} (closed={closed}): no client error was sent")
+    elif not closed:
+        ctx.violation("C01/server/malformed-connection-left-open", case, f"4xx sent but connection still open; responses {codes}")
 
 
 def _replay(ctx, case):
@@ -312,6 +362,16 @@ def _replay(ctx, case):
     segs, pos = [], 0
     for n in case["cuts"]:
         segs.append(data[pos:pos + n]); pos += n
+    if case.get("behind"):
+        from . import c01
+        segs_, pos_ = [], 0
+        for n_ in case["cuts"]:
+            segs_.append(data[pos_:pos_ + n_]); pos_ += n_
+        _, o = H.run_impl(H.Cfg(), segs_, False)
+        o["methods"] = [m.split(b" ", 1)[0] for m in data.split(b"\r\n") if b" HTTP/1." in m and (m.startswith(b"GET /ok") or m.startswith(b"GET /slow") or m.startswith(b"POST /ok") or m.startswith(b"PUT /ok"))] + [b"?"]
+        res, excs = c01.server_seen([(data, case["cuts"], case["gaps"])])
+        judge_behind(ctx, case, o, res[0][1], res[0][2], res[0][3])
+        return
     run_checked(ctx, cfg, segs, "replay")
     if case.get("bodyopen"):
         _, o = H.run_impl(cfg, segs, True)
